@@ -64,6 +64,9 @@ def eval_case(case, rec):
             rec.exclude('model-invalid:' + e.kind)
             return
         info = {'case': engine.describe(case), 'calls': case['calls']}
+        # directory results contain a relative symlink to a file outside their own directory
+        (src / 'shared.txt').write_text('shared payload')
+        RT.dir_symlink = str(src / 'shared.txt')
         try:
             with hyp.quiet_output():
                 old = build.make_config(case, src, w.cfgdir).chain(parameter_mode=False)
@@ -132,6 +135,21 @@ def eval_case(case, rec):
                 raise Violation('migrated-value-raised', dict(info, task=n, error=repr(e)[:300]))
             if mt_par[n].kind != 'gen_empty' and digest_of(v) != mt_name[n].value:
                 raise Violation('migrated-value-differs', dict(info, task=n, got=digest_of(v), want=mt_name[n].value))
+            if mt_par[n].kind == 'dir':
+                # every file of the directory result is readable and equal to the original (links are followed)
+                sdir = src / model.location(mt_name[n])
+                tdir = Path(v)
+                for p_ in sorted(sdir.rglob('*')):
+                    if p_.is_dir():
+                        continue
+                    q = tdir / p_.relative_to(sdir)
+                    try:
+                        same = q.read_bytes() == p_.read_bytes()
+                    except OSError as e:
+                        raise Violation('migrated-directory-content-unreadable', dict(info, task=n, file=str(q.name),
+                                                                                      error=repr(e)[:200]))
+                    if not same:
+                        raise Violation('migrated-directory-content-differs', dict(info, task=n, file=str(q.name)))
         if RT.log:
             raise Violation('migrated-result-recomputed', dict(info, ran=[e[0] for e in RT.log]))
         if tree_digest(src) != before:
